@@ -4,7 +4,7 @@
    signals with a value table, the kind only; the full statement is
    Acme.C10.Proofs.import_signal_faithful_full_statement. *)
 From Coq Require Import String ZArith List.
-From Acme.C10 Require Import DbcDoc BusModel Import Bits BitsProofs Proofs ProofsEnum ProofsLayout ProofsFaithful ProofsMux.
+From Acme.C10 Require Import DbcDoc BusModel Import Bits BitsProofs Proofs ProofsEnum ProofsLayout ProofsFaithful ProofsMux ProofsExtMux.
 Import ListNotations.
 Open Scope Z_scope.
 
@@ -102,3 +102,15 @@ Theorem import_simple_mux_faithful : forall d b, import d = Ok b ->
     Forall2 (fun dm m => simple_mux_faithful (doc_env d se) dm (m_signals m)) (d_messages d) (b_messages b).
 Proof. exact ProofsMux.import_simple_mux_faithful. Qed.
 Print Assumptions import_simple_mux_faithful.
+
+(* messages with two or more multiplexor switches (extended multiplexing, nesting): every signal of
+   the file is present with the file's data; a multiplexed signal is a child of the multiplexer its
+   SG_MUL_VAL_ entry names, at its position relative to the end of that switch, in the groups the entry
+   lists (all groups = fixed); a switch is a top-level multiplexer at its position, or nested in the
+   multiplexer its own entry names (which is placed before it) *)
+Theorem import_ext_mux_faithful : forall d b, import d = Ok b ->
+  exists se : list (key * Z),
+    (forall k, (exists e, lookup key_eqb k se = Some e) <-> has_valenc d k) /\
+    Forall2 (fun dm m => ext_mux_faithful (doc_env d se) dm (m_signals m)) (d_messages d) (b_messages b).
+Proof. exact ProofsExtMux.import_ext_mux_faithful. Qed.
+Print Assumptions import_ext_mux_faithful.
